@@ -445,6 +445,19 @@ func (d *feesDriver) call(e BEvent, args map[string]interface{}) error {
 			return err
 		}
 		return k.DelegationKeeper.DelegateTo(ctx, &delegationtypes.DelegationOrUndelegationParams{ClientChainID: LzID, Action: assetstypes.DelegateTo, AssetsAddress: aaddr, OperatorAddress: w.Op(o), StakerAddress: saddr, OpAmount: x})
+	case "Jail":
+		// what x/slashing does for downtime: StakingKeeper.Jail(consAddr). The validator keeps its voting power until the
+		// next dogfood epoch end; from now on CalculateUSDValueForStaker returns 0 for every staker of the operator.
+		o := e.str("o")
+		args["o"] = o
+		var oi int
+		fmt.Sscanf(o, "o%d", &oi)
+		ck, ok := w.ConsKeys[fmt.Sprintf("k%d", oi)]
+		if !ok {
+			return fmt.Errorf("operator %s has no consensus key", o)
+		}
+		k.StakingKeeper.Jail(ctx, sdk.ConsAddress(ck.PubKey().Address()))
+		return nil
 	}
 	return fmt.Errorf("unknown event %s", e.Ev)
 }
